@@ -191,6 +191,48 @@ def prototype_validation(ctx, prog, rule):
                             steps = list(arr)
                             dec[const_val(d[3])] = d[1]
         ok = sorted(steps) == sorted(names) and set(dec) == {0, total}
+        if not ok:
+            # the decision in any spelling (`match n { 0 | 3 => .., _ => Err }`, `n != 0 && n != 3`): assume the
+            # count and see whether a successful return is still reachable
+            import names as nm
+
+            def count_tree(tv):
+                cnt = strip(tv)
+                while cnt[0] == "cast":
+                    cnt = strip(cnt[2])
+                if cnt[0] == "call" and cnt[1].endswith("::count") and cnt[2]:
+                    flt = strip(cnt[2][0])
+                    if flt[0] == "call" and flt[1].endswith("::filter") and len(flt[2]) == 2:
+                        arr = nm._array_consts(flt[2][0])
+                        looked = nm.lookup_names(prog, f, flt)
+                        if arr and looked and sorted(looked) == sorted(arr) and len(set(arr)) == len(arr):
+                            return cnt, list(arr)
+                return None, None
+            tests = []
+            arr_found = None
+            for bi in f.cfg():
+                te = int_test_edges(f, R, bi)
+                if te is None:
+                    continue
+                cnt, arr = count_tree(te[0])
+                if cnt is not None:
+                    tests.append((bi, te))
+                    arr_found = arr
+            if tests and arr_found and sorted(arr_found) == sorted(names):
+                accepted = set()
+                for k in range(total + 1):
+                    removed = set()
+                    for bi, (val, cases, others) in tests:
+                        succs = set(f.cfg().get(bi, []))
+                        keep = {cases[k]} if k in cases else set(others)
+                        for s_ in succs - keep:
+                            removed.add((bi, s_))
+                    g_ = cfg_without_edges(f, removed)
+                    if find_path(g_, [0], set(f.return_blocks()), f.err_exit_blocks()) is not None:
+                        accepted.add(k)
+                steps = list(arr_found)
+                dec = {k: "accepted" for k in sorted(accepted)}
+                ok = accepted == {0, total}
         ctx.ob(rule, "all-or-nothing/%s" % short(path), ok, "%s counts presence tests of %s (each name once, +1 each) and rejects counts other than 0 and %d: tests %s, decisions %s" % (short(path), names, total, sorted(steps), dec))
         # state attribute: requires the group and Integer{0..k}
         oks = False
@@ -221,6 +263,29 @@ def prototype_validation(ctx, prog, rule):
             d = strip(R.place(dl)) if dl else None
             if d and d[0] == "binop" and d[1] in ("Ne", "Eq") and const_val(d[3]) in (0, 2) and strip(d[2])[0] in ("phi", "local", "binop"):
                 dec.add(const_val(d[3]))
+    if dec != {0, 2}:
+        # `count.is_some() != index.is_some()` -> error: presence of exactly one of the two is rejected
+        for bi in f.cfg():
+            t = f.blocks[bi]["term"]
+            if t["k"] != "switch":
+                continue
+            dl = op_place(t["discr"])
+            d = strip(R.place(dl)) if dl else None
+            if d and d[0] == "binop" and d[1] in ("Ne", "Eq", "BitXor"):
+                sides = [strip(d[2]), strip(d[3])]
+                pres = []
+                for x in sides:
+                    if x[0] == "call" and x[1].rsplit("::", 1)[-1] in ("is_some", "is_none") and x[2]:
+                        g_ = strip(x[2][0])
+                        if g_[0] == "call" and g_[1] == "pc_writer::get":
+                            pres.append((enum_const(g_[2][1]), x[1].rsplit("::", 1)[-1]))
+                    elif x[0] == "call" and x[1] == "pc_writer::contains":
+                        pres.append((enum_const(x[2][1]), "is_some"))
+                if sorted(p_[0] or "?" for p_ in pres) == ["ReturnCount", "ReturnIndex"] and pres[0][1] == pres[1][1]:
+                    e = switch_edges(f, bi)
+                    differ = e.get("0") if d[1] == "Eq" else e.get("1", e["otherwise"])
+                    if differ is not None and f.ok_reachable(start=[differ]) is None:
+                        dec = {0, 2}
     ctx.ob(rule, "all-or-nothing/validate_return", got == ["ReturnCount", "ReturnIndex"] and dec == {0, 2}, "ReturnCount and ReturnIndex must appear together: presence tests %s, accepted counts %s" % (got, sorted(dec)))
     # validate_prototype calls all of them and requires coordinates
     v = prog.fn(PCW + "validate_prototype")
